@@ -186,7 +186,9 @@ impl Monitor for Mon {
         if !w.awaiting().is_empty() {
             v.push(Event::Timer);
             for t in explore::time_reps(w, TimeDetail::Coarse) {
-                v.push(Event::AdvanceTo(t));
+                if !w.just_advanced {
+                    v.push(Event::AdvanceTo(t));
+                }
             }
         }
         for i in w.awaiting().into_iter().take(2) {
